@@ -89,7 +89,24 @@ theorem no_progress_is_error {ρ : Type} (ev : Evalr ρ) (fuel : Nat) (st st' : 
     Ctl.retry ev (fuel + 1) st (t :: ts) outs bb = (st', .error (.multi (remain.map (·.idx)))) := by
   rw [Ctl.retry]
   simp only [seq, hp]
-  simp [hl, hr]
+  split
+  · rfl
+  · simp [hl, hr]
+
+/-- **a failed tag is attempted again only if something it could refer to has changed since**: when the
+    generation counter (elements registered or changed, variables given a different value, configuration)
+    stands where it stood right after the first failure of the pass, the run ends there with the pending
+    elements as its error - every remaining tag has already seen everything that completed before it in
+    the pass, so another pass would repeat the same work. (Before this rule a failing container was
+    re-attempted after every pass in which a sibling completed, doubling the work per nesting level.) -/
+theorem futile_retry_is_not_made {ρ : Type} (ev : Evalr ρ) (fuel : Nat) (st st' : St ρ) (t : Tag) (ts : List Tag)
+    (outs outs' : List (Nat × List Ev)) (bb bb' : Option Gen.BoundingBox) (f : Tag) (remain : List Tag)
+    (hp : Ctl.onePass ev fuel st (t :: ts) outs bb [] = (st', .ok (outs', bb', f :: remain)))
+    (hg : f.failGen = some st'.gen) :
+    Ctl.retry ev (fuel + 1) st (t :: ts) outs bb = (st', .error (.multi ((f :: remain).map (·.idx)))) := by
+  rw [Ctl.retry]
+  simp only [seq, hp]
+  simp [hg]
 
 /-- passes that complete no tag but resolve something new (inside a failing container) are retried, and
     at most loop-limit times over the whole document -/
@@ -101,7 +118,9 @@ theorem idle_passes_bounded {ρ : Type} (ev : Evalr ρ) (fuel : Nat) (st st' : S
     (Ctl.retry ev (fuel + 1) st (t :: ts) outs bb).2 = .error (.multi (remain.map (·.idx))) := by
   rw [Ctl.retry]
   simp only [seq, hp]
-  simp [hl, hr, hb]
+  split
+  · rfl
+  · simp [hl, hr, hb]
 
 /-! output is emitted in document order whatever order the elements were resolved in -/
 
@@ -216,6 +235,7 @@ end Svgdx.Props.C10
 #print axioms Svgdx.Props.C10.missing_bbox_is_error_size
 #print axioms Svgdx.Props.C10.no_progress_is_error
 #print axioms Svgdx.Props.C10.idle_passes_bounded
+#print axioms Svgdx.Props.C10.futile_retry_is_not_made
 #print axioms Svgdx.Props.C10.output_in_document_order
 #print axioms Svgdx.Props.C10.evaluation_monotone
 #print axioms Svgdx.Props.C10.evaluation_monotone_relspec_partial
